@@ -20,6 +20,11 @@ let run_array toks =
   | ["get"; sh; idx] ->
     (match get (ramp (parse_list sh)) (parse_list idx) with
      | Some v -> add ("Some " ^ zs v) | None -> add "None")
+  (* the mutable path addresses the element `get` addresses; writing through it changes exactly that position (the ramp's
+     value at an index is its flat position) *)
+  | ["getmut"; sh; idx] ->
+    (match get (ramp (parse_list sh)) (parse_list idx) with
+     | Some v -> add ("Some " ^ zs v ^ " W" ^ zs v) | None -> add "None")
   | ["getaxis"; sh; a; i] ->
     (match get_axis (ramp (parse_list sh)) (ZA.of_string a) (ZA.of_string i) with
      | Some v -> add ("Some dims=" ^ string_of_int (List.length v.vshape)) | None -> add "None")
@@ -291,7 +296,7 @@ let run_case line =
   | [] -> ()
   | op :: _ ->
     (match op with
-     | "get" | "getaxis" | "view" | "axisiter" | "indices" | "sum" -> run_array toks
+     | "get" | "getmut" | "getaxis" | "view" | "axisiter" | "indices" | "sum" -> run_array toks
      | "fold" | "marg" | "keep" | "project" | "pmf" | "binom" -> run_spectrum toks
      | "npyw" | "npyr" | "textw" | "read" | "fmt" | "parse" | "detect" -> run_bytes toks
      | "classify" | "sites" | "create" | "smapfile" | "genosm" -> run_create toks
